@@ -63,12 +63,22 @@ RECURSIVE Flat(_)
 Flat(ss) == IF ss = <<>> THEN <<>> ELSE Head(ss) \o Flat(Tail(ss))
 RefTops(c) == Flat([i \in DOMAIN c.refs |-> Tops(c.refs[i], c.plats)])
 Named(c) == c.digs \o RefTops(c)
-\* manifests a command copies into the target before it looks up its digests
-Copied(c) == UNION {Reach(RefTops(c)[j]) : j \in DOMAIN RefTops(c)}
 \* the manifests it adds from a source repository, with that repository
-TopsFrom(c) == UNION {{<<Ref[c.refs[i]].repo, Tops(c.refs[i], c.plats)[j]>> : j \in DOMAIN Tops(c.refs[i], c.plats)} :
-                      i \in DOMAIN c.refs}
-
+TopsFrom(c) ==
+  UNION {{<<Ref[c.refs[i]].repo, Tops(c.refs[i], c.plats)[j]>> : j \in DOMAIN Tops(c.refs[i], c.plats)} :
+         i \in DOMAIN c.refs}
+\* manifests a command copies into the target before it looks up its digests: everything below the
+\* named ones, with --referrers / --digest-tags their referrers / digest tagged manifests too
+\* (Sure); with --digest-tags alone referrers may come along when the source records them in a
+\* fallback tag (Perhaps)
+Below(c) == UNION {{<<t[1], n>> : n \in Reach(t[2])} : t \in TopsFrom(c)}
+RefersOf(S) == UNION {{<<t[1], r>> : r \in Referrers(t[1], t[2])} : t \in S}
+TaggedOf(S) == UNION {{<<t[1], r>> : r \in DigestTagged(t[1], t[2])} : t \in S}
+Sure(c) ==
+  LET b == Below(c)
+      x == (IF c.rfr THEN RefersOf(b) ELSE {}) \cup (IF c.dtags THEN TaggedOf(b) ELSE {})
+  IN {t[2] : t \in b \cup x}
+Perhaps(c) == IF c.dtags THEN {t[2] : t \in RefersOf(Below(c))} ELSE {}
 NewEntry(c, id) ==
   En(id, Man[id].mt, IF c.dplat # "" THEN DescPlatStored(c.dplat) ELSE Man[id].cplat, AnnStr(c.dann), "")
 
@@ -92,16 +102,19 @@ BuildNew(c, hv) ==
   IF \E i \in DOMAIN c.plats : ~PlatOk(c.plats[i]) THEN Fail("platform")
   ELSE IF c.dplat # "" /\ ~PlatOk(c.dplat) THEN Fail("desc-platform")
   ELSE IF \E i \in DOMAIN c.refs : RefMan(c.refs[i]) = None THEN Fail("source")
-  ELSE IF \E i \in DOMAIN c.digs : c.digs[i] \notin (hv \cup Copied(c)) THEN Fail("digest")
-  ELSE [ok |-> IF "ghost" \in Copied(c) THEN "maybe" ELSE "yes", why |-> "",
-        v |-> [i \in DOMAIN Named(c) |-> NewEntry(c, Named(c)[i])], tagged |-> TRUE, tops |-> TopsFrom(c)]
+  ELSE IF \E i \in DOMAIN c.digs : c.digs[i] \notin (hv \cup Sure(c) \cup Perhaps(c)) THEN Fail("digest")
+  ELSE [ok |-> IF "ghost" \in Sure(c) \/ \E i \in DOMAIN c.digs : c.digs[i] \notin (hv \cup Sure(c))
+               THEN "maybe" ELSE "yes",
+        why |-> "",
+        v |-> [i \in DOMAIN Named(c) |-> NewEntry(c, Named(c)[i])], tagged |-> TRUE,
+        tops |-> TopsFrom(c)]
 
 Outcome(c, cv, hv) ==
   CASE c.op = "create" ->
          IF c.mt \notin {"oci", "docker"} THEN Fail("media-type")
          ELSE LET n == BuildNew(c, hv) IN
               IF n.ok = "no" THEN n
-              ELSE IF c.mt = "oci" /\ c.subj # "" /\ c.subj \notin (hv \cup Copied(c)) /\ ~(c.subj = "v1" /\ cv.k # "none")
+              ELSE IF c.mt = "oci" /\ c.subj # "" /\ c.subj \notin (hv \cup Sure(c)) /\ ~(c.subj = "v1" /\ cv.k # "none")
                    THEN Fail("subject")
               ELSE [n EXCEPT !.v = IF c.mt = "oci"
                                    THEN IV("ocii", FirstOnly(n.v), AnnStr(c.ann), c.at, SubjOf(c, cv))
@@ -121,15 +134,16 @@ Outcome(c, cv, hv) ==
 
 ----------------------------------------------------------------------------
 (* the monitor *)
-PInit == pcur = [k |-> "none"] /\ phave = {} /\ pcmd = None /\ pwant = None /\ pnew = FALSE /\ bad = ""
+NoCmd == [op |-> "none"]
+PInit == pcur = [k |-> "none"] /\ phave = {} /\ pcmd = NoCmd /\ pwant = None /\ pnew = FALSE /\ bad = ""
 
 Set(s) == {s[i] : i \in DOMAIN s}
 \* header: the state the driver found after setting the target up
 PReset(otag, ohave) ==
-  /\ pcur' = otag /\ phave' = Set(ohave) /\ pcmd' = None /\ pwant' = None /\ pnew' = FALSE /\ bad' = ""
+  /\ pcur' = otag /\ phave' = Set(ohave) /\ pcmd' = NoCmd /\ pwant' = None /\ pnew' = FALSE /\ bad' = ""
 
 PCmd(c) ==
-  /\ pcmd = None
+  /\ pcmd = NoCmd
   /\ pcmd' = c /\ pwant' = Outcome(c, pcur, phave) /\ pnew' = FALSE
   /\ UNCHANGED <<pcur, phave, bad>>
 
@@ -138,10 +152,11 @@ Say(b) == bad' = IF bad # "" THEN bad ELSE b
 
 \* the target repository changed while the command ran
 PObs(otag, omiss) ==
-  /\ pcmd # None
+  /\ pcmd # NoCmd
   /\ LET isnew == pwant.ok # "no" /\ pwant.tagged /\ otag = NewTag
          isold == otag = pcur
      IN /\ Say(IF omiss # <<>> THEN "dangling"
+               ELSE IF ~isold /\ pwant.ok = "no" THEN "accepted:" \o pwant.why
                ELSE IF ~isnew /\ ~isold THEN "intermediate"
                ELSE IF pnew /\ ~isnew THEN "flip-back"
                ELSE "")
@@ -152,7 +167,7 @@ PObs(otag, omiss) ==
 \* pushed: with --by-digest, the index stored under the digest the command printed ([k |-> "none"] otherwise);
 \* xt: digest tags in the repository (names of the subjects)
 PDone(rc, faulted, otag, omiss, ohave, oxt, opush) ==
-  /\ pcmd # None
+  /\ pcmd # NoCmd
   /\ LET h == Set(ohave)
          want == IF rc = 0 /\ pwant.ok # "no" /\ pwant.tagged THEN NewTag ELSE pcur
      IN /\ Say(IF omiss # <<>> THEN "dangling"
@@ -167,7 +182,7 @@ PDone(rc, faulted, otag, omiss, ohave, oxt, opush) ==
                           ~(DigestTagged(t[1], t[2]) \subseteq h /\ (DigestTagged(t[1], t[2]) # {} => t[2] \in Set(oxt))) THEN "digest-tags"
                ELSE "")
         /\ pcur' = otag /\ phave' = h
-  /\ pcmd' = None /\ pwant' = None /\ pnew' = FALSE
+  /\ pcmd' = NoCmd /\ pwant' = None /\ pnew' = FALSE
 
 \* between commands nothing may change; the driver logs one observation per command, this is it
 Ok == bad = ""
